@@ -14,6 +14,7 @@ import mirq
 from mirq import show, access_path, AnchorMissing, const_of, walk
 from rulekit import Table
 from rules import common as C
+from rules import vocab as V
 
 TABLE = Table('C16')
 NOT_DECIDED = ('"succeeds exactly when the input is well-formed" as language equality, and the returned values (value-level). '
@@ -38,8 +39,8 @@ GUARDS = [
 
 
 def fn_by_suffix(F, suf):
-    fs = [f for f in F.user_fns() if f.path.endswith(suf) and f.kind != 'Closure']
-    return C.one(fs, suf)
+    """decoder function in the role named by suf ('BDecoder::parse_int', ...): resolved by signature, not by name"""
+    return V.codec_fn(F, suf.split('::')[-1])
 
 
 @TABLE.rule('1', 'K4', 'panic-site audit of BDecoder::from_array (whole call graph)', floor=2)
@@ -77,7 +78,13 @@ def r2(cx, rec):
                             guard = (sb, show(ce))
                 errs = set(C.err_exit_blocks(b))
                 reaches_err = bool(b.reach_from(bi) & errs) or any(s2['k'] == 'assign' and s2['lhs']['l'] == 0 for s2 in b.blocks[bi]['s']) or b.kind == 'Closure'
-                inside_or = any(x[0] == 'call' and x[4].get('name') in ('or', 'map_err', 'ok_or') for b2 in mirq.real_calls(b) for x in [b.expr_call(b2)] if any(y[0] == 'agg' and y[3] == variant for y in walk(x)))
+                adaptors = [x for b2 in mirq.real_calls(b) for x in [b.expr_call(b2)]
+                            if x[0] == 'call' and x[4].get('name') in ('or', 'map_err', 'ok_or', 'or_else', 'ok_or_else') and
+                            any(y == e for a in x[2][1:] for y in walk(a))]
+                inside_or = bool(adaptors)
+                if inside_or:
+                    # `value.or(Err(E))?`: the rejected condition is "value is Err/None", value being the adaptor's receiver
+                    guard = (None, show(adaptors[0][2][0]))
                 rec.site(b, bi, '%s guarded by %s' % (variant, (guard[1][:80] if guard else 'result adaptor' if inside_or else None)))
                 rec.need(reaches_err or inside_or, 'guard-not-fatal/%s/%s' % (suf, variant), b, bi, '%s does not lead to an Err return' % variant)
                 if guard:
@@ -190,7 +197,8 @@ def r3(cx, rec):
         for g, gb in C.callers(F, f.path):
             a = g.expr_call(gb)[2][wi]
             c = const_of(a)
-            top = (g.name in ('from_array', 'find_first'))
+            top = (g.path == V.codec_fn(F, 'from_array').path or (g.trait or '') != '' or
+                   not any(n2 for n2, l2, t2 in C.params_of(g, r'Enumerate<')))
             rec.site(g, gb, '%s(.., with_end=%s) from %s' % (f.name, show(a), g.name))
             rec.need(c is not None and a[0] == 'const' and bool(c[0]) == (not top), 'terminator-flag/%s<-%s' % (f.name, g.name), g, gb,
                      '%s calls %s with with_end=%s: %s' % (g.name, f.name, show(a),
